@@ -111,6 +111,11 @@ fn load_cases(path: &str, long: usize) -> Vec<Case> {
             "none" => None,
             "point" => Some(emit::Extent::point(start)),
             "range" => Some(emit::Extent::range(start..start.checked_add(dur).unwrap())),
+            "rangeEmpty" => Some(emit::Extent::range(start..start)),
+            "rangeBack" => {
+                let back = [Duration::from_nanos(1), Duration::from_nanos(7), Duration::from_millis(1500), Duration::from_secs(86_400)][pool.rng.below(4) as usize];
+                Some(emit::Extent::range(start.checked_add(back).unwrap()..start))
+            }
             o => tool_error(&format!("bad extent {o}")),
         };
         out.push(Case { salt, spec: v.clone(), keys, cvs, fw, mdl: format!("c13::e{salt}"), lit: format!("evt{salt} "), extent });
@@ -347,6 +352,10 @@ fn check_otlp(t: &Tables, c: &Case, enc: &str, msg: &str, rec: &NRecord, out: &m
             if let Some(f) = r.points.first() {
                 if f.start != start { time_ok = false; }
             }
+            // a backwards range: how its points are placed is not decided (only: no panic, decodes)
+            if start > end {
+                time_ok = true;
+            }
             if !time_ok {
                 out.push(mis("metric point times differ from the extent", format!("metric-time ev={ks}"), json!({"enc": enc, "want": [start, end], "got": r.points.iter().map(|p| [p.start, p.time]).collect::<Vec<_>>()})));
             }
@@ -421,9 +430,99 @@ fn check_file(t: &Tables, c: &Case, msg: &str, tpl: &str, line: &str, out: &mut 
     }
 }
 
+fn strip_ansi(s: &str) -> String {
+    let mut out = String::with_capacity(s.len());
+    let mut it = s.chars().peekable();
+    while let Some(c) = it.next() {
+        if c == '\u{1b}' && it.peek() == Some(&'[') {
+            it.next();
+            for d in it.by_ref() {
+                if ('@'..='~').contains(&d) {
+                    break;
+                }
+            }
+        } else {
+            out.push(c);
+        }
+    }
+    out
+}
+
+/// The terminal line(s) of an event, colour codes stripped, must show - in this order after
+/// the module - the level, the kind, the message with the hole's value, and for an error
+/// value its text followed by every cause in chain order.  Layout is not decided.
+fn check_term(c: &Case, body: &str) -> Option<(String, String)> {
+    let t = &c.spec["term"];
+    let text = strip_ansi(body);
+    let idx = |f: &str| t[f].as_u64().unwrap_or(0) as usize;
+    let msg_at = text.find(&c.lit)?;
+    let head = &text[..msg_at];
+    // module: first and last segment
+    for seg in ["c13", &c.mdl["c13::".len()..]] {
+        if !head.contains(&format!("{seg} ")) {
+            return Some(("module".into(), seg.to_string()));
+        }
+    }
+    if idx("lvl") != 0 {
+        let name = level_name(&c.cvs[idx("lvl") - 1]);
+        if !head.contains(&name) {
+            return Some(("lvl".into(), name));
+        }
+    }
+    if idx("kind") != 0 {
+        let k = c.cvs[idx("kind") - 1].text().unwrap();
+        if !head.contains(&k) {
+            return Some(("evt_kind".into(), k));
+        }
+    }
+    // ids are shown (abbreviated) when the event has a span id
+    if idx("span") != 0 {
+        let sid: String = id_bytes(&c.cvs[idx("span") - 1]).iter().map(|b| format!("{b:02x}")).collect();
+        if !head.contains(&sid[..4]) {
+            return Some(("span_id".into(), sid[..4].to_string()));
+        }
+        if idx("trace") != 0 {
+            let tid: String = id_bytes(&c.cvs[idx("trace") - 1]).iter().map(|b| format!("{b:02x}")).collect();
+            if !head.contains(&tid[..6]) {
+                return Some(("trace_id".into(), tid[..6].to_string()));
+            }
+        }
+    }
+    // the hole's value inside the message, for values with one obvious rendering
+    let tail = &text[msg_at + c.lit.len()..];
+    if idx("hole") != 0 {
+        let want = match c.cvs[idx("hole") - 1].strip_some() {
+            CV::Bool(b) => Some(b.to_string()),
+            v @ (CV::I64(_) | CV::U64(_) | CV::I128(_) | CV::U128(_)) => v.decimal(),
+            CV::Str(s) if !s.is_empty() && s.chars().all(|c| c.is_ascii_alphanumeric() || c == ' ') => Some(s.clone()),
+            CV::Reent(r) => Some(r.text()),
+            _ => None,
+        };
+        if let Some(w) = want {
+            if !tail.contains(&w) {
+                return Some(("hole a".into(), w));
+            }
+        }
+    }
+    // err: the error's text, then every cause, in chain order, after the message
+    if idx("err") != 0 {
+        if let CV::Err(e) = &c.cvs[idx("err") - 1] {
+            let mut pos = 0;
+            for (i, m) in e.chain().iter().enumerate() {
+                match tail[pos..].find(m.as_str()) {
+                    Some(p) => pos += p + m.len(),
+                    None => return Some((if i == 0 { "err".into() } else { format!("err cause {i}") }, m.clone())),
+                }
+            }
+        }
+    }
+    None
+}
+
 fn term_child(cases: &str) {
     quiet_panics();
-    let cs = load_cases(cases, 256);
+    let long: usize = std::env::var("VERIF_LONG").ok().and_then(|s| s.parse().ok()).unwrap_or(4096);
+    let cs = load_cases(cases, long);
     install_reent_hook();
     let plain = TERM_PLAIN.get_or_init(|| emit_term::stdout().colored(false));
     let colored = TERM_COLOR.get_or_init(|| emit_term::stdout().colored(true));
@@ -595,6 +694,7 @@ fn main() {
     }
 
     let mut sinks_decided = 0u64;
+    let mut file_refused = 0u64;
     let mut by_cat: std::collections::BTreeMap<String, u64> = Default::default();
     for (c, run) in cases.iter().zip(&runs) {
         rep.cases += 1;
@@ -609,6 +709,8 @@ fn main() {
             match lines.get(&c.mdl).map(|v| v.as_slice()) {
                 Some([line]) => check_file(&tables, c, &run.msg, &run.tpl, line, &mut out),
                 Some(v) => out.push(mis("event written more than once", format!("file-count n={} ev={ks}", v.len()), json!({"n": v.len()}))),
+                // a map key JSON member names cannot be made of: the writer may refuse the event
+                None if c.spec["file"]["may_drop"].as_bool() == Some(true) => file_refused += 1,
                 None => out.push(mis("event has no well-formed line in the files", format!("file-no-line ev={ks}"), json!({"unattributed_lines": bad_lines.iter().take(3).collect::<Vec<_>>()}))),
             }
             sinks_decided += 1;
@@ -676,6 +778,8 @@ fn main() {
                     out.push(mis("panic on the emitting thread", format!("panic sink=term msg={} ev={ks}", st.chars().take(60).collect::<String>()), json!({"sink": "term", "panic": st})));
                 } else if !body.contains(&c.lit) {
                     out.push(mis("terminal output lacks the message text", format!("term-text ev={ks}"), json!({"want": c.lit, "got": body.chars().take(300).collect::<String>()})));
+                } else if let Some((field, want)) = check_term(c, body) {
+                    out.push(mis("terminal output lacks a part of the event", format!("term-field field={field} ev={ks}"), json!({"field": field, "want": want, "got": strip_ansi(body).chars().take(400).collect::<String>()})));
                 } else if !term_rids.is_empty() && !body.contains("inner event") {
                     out.push(mis("event emitted from inside a property value is lost", format!("reentrant-inner-lost sink=term ev={ks}"), json!({"sink": "term", "got": body.chars().take(300).collect::<String>()})));
                 }
@@ -703,6 +807,7 @@ fn main() {
         rep.mismatch("OTLP request body does not decode", &json!({"enc": enc}), json!({"error": e, "sig": format!("otlp-decode enc={enc} {}", e.chars().take(80).collect::<String>())}));
     }
     rep.extra.insert("sinks_decided".into(), json!(sinks_decided));
+    rep.extra.insert("file_events_refused_unencodable_key".into(), json!(file_refused));
     rep.extra.insert("mismatch_categories".into(), json!(by_cat));
     rep.extra.insert("file_lines".into(), json!(lines.values().map(|v| v.len()).sum::<usize>()));
     rep.extra.insert("unattributed_file_lines".into(), json!(bad_lines.len()));
